@@ -55,6 +55,7 @@ until they are fixed or listed in known_findings.json):
   slice:other-line-equals-name (F3)            a task named like a later workflow is returned as that workflow's definition
   slice:member-line-not-plain                  `'wf1':`, `wf1 :`, `wf1: # c`, `wf1: {..}` -> the stored definition is "\n"
   slice:section-name-occurs-earlier            `description: "my workflows: ..."` / an action called sync_workflows
+  slice:raises:ValueError                      `workflows :` / `"workflows":` -> ValueError (HTTP 500) when the accepted workbook is stored
 """
 import collections
 import copy
@@ -1027,6 +1028,7 @@ CORPUS = [
     ('wb', "version: '2.0'\nname: wb\nworkflows:\n  wf1:\n    tasks:\n      wf2:\n        action: std.noop\n  wf2:\n    tasks:\n      t:\n        action: std.echo output=1\n", 'accept'),
     ('wb', "version: '2.0'\nname: wb\ndescription: 'my workflows: are here'\nworkflows:\n  wf1:\n    tasks:\n      t:\n        action: std.noop\n", 'accept'),
     ('wb', "version: '2.0'\nname: wb\nworkflows:\n  'wf1':\n    tasks:\n      t:\n        action: std.noop\n", 'accept'),
+    ('wb', "version: '2.0'\nname: wb\nworkflows :\n  wf1:\n    tasks:\n      t:\n        action: std.noop\n", 'accept'),
     ('wb', "version: '2.0'\nname: wb\nactions:\n  a1:\n    base: std.echo output=1\n    base-input:\n      x: 2\nworkflows:\n  wf1:\n    tasks:\n      t:\n        action: a1\n", 'accept'),
     ('act', "version: '2.0'\na1:\n  base: std.echo output=<% $.x %>\n  input:\n    - x\n    - y: 1\n  output: <% $ %>\n", 'accept'),
 ]
